@@ -120,21 +120,21 @@ def stringValue (l : Text) : Option Text :=
     else none
   | _ => none
 
-/-- BlockStringCharacter* (between the `"""`) and the raw value:
-    SourceCharacter but not `"""` or `\"""` | `\"""` (denoting `"""`) -/
+/-- BlockStringCharacter* followed by the closing `"""`, and the raw value:
+    SourceCharacter but not `"""` or `\"""` | `\"""` (denoting `"""`).
+    The "but not" look-ahead has to see the closing quotes, so the closing `"""` is part of the
+    argument: the first unescaped `"""` must be the end of the lexeme. -/
 def blockStringCharacters : Nat → Text → Option Text
-  | _, [] => some []
+  | _, [] => none
   | k + 1, c :: t => (blockStringCharacters k t).map (c :: ·)
   | 0, c :: t =>
-    if [34, 34, 34].isPrefixOf (c :: t) then none
+    if [34, 34, 34].isPrefixOf (c :: t) then (if t.length = 2 then some [] else none)
     else if c = 92 ∧ [34, 34, 34].isPrefixOf t then blockStringCharacters 3 t
     else if !isSourceChar c then none
     else (blockStringCharacters 0 t).map (c :: ·)
 
 /-- raw value of a complete block-string lexeme `"""…"""` (before `BlockStringValue`) -/
 def blockStringRaw (l : Text) : Option Text :=
-  if [34, 34, 34].isPrefixOf l ∧ 6 ≤ l.length ∧ l.drop (l.length - 3) = [34, 34, 34] then
-    blockStringCharacters 0 ((l.drop 3).take (l.length - 6))
-  else none
+  if [34, 34, 34].isPrefixOf l then blockStringCharacters 0 (l.drop 3) else none
 
 end PyGql.Spec.Lexical
